@@ -1,4 +1,5 @@
 //@include prelude.rs
 //@include common_core.rs
 //@include hdr_core.rs
+//@include hdr_find.rs
 fn main() {}
